@@ -142,7 +142,7 @@ pub fn hostile_run<A: StationApps>(world: &mut World<A>, env: usize, cfg: &Scrip
     let mut burst_end: Us = 0;
     let mut burst_prev: Vec<u8> = Vec::new();
     for act in actions {
-        if world.stations[0].panic.is_some() {
+        if world.stations[0].panic.is_some() || past_deadline() {
             break;
         }
         let (ps, ns, awaiting, st) = {
